@@ -18,21 +18,18 @@ Qed.
 Lemma expect_refl t : expect (Val t) t = true.
 Proof. unfold expect. cbn. apply list_eqb_refl, tok_eqb_refl. Qed.
 
+Lemma transform_tree_group path d s :
+  transform_tree path (Group d s) = Group d (map (transform_tree path) s).
+Proof. reflexivity. Qed.
+
 (* ---------- one literal node ---------- *)
 Lemma transform_lit_node path t :
   existsb has_panic path = false ->
   let n := transform_tree path (Lit t) in
   (has_panic n = true -> spec_literal t = SReject) /\
-  (has_panic n = false ->
-   flat_tree n =
-   match spec_literal t with
-   | SPass => [TY t]
-   | SExpand kind bits limbs =>
-       flat_map flat_tree path ++ [TZ (30 + kind); TZ bits; TZ (nlimbs bits); TL limbs]
-   | SReject => [TErr 1]
-   end).
+  (has_panic n = false -> flat_tree n = spec_lit (flat_map flat_tree path) t).
 Proof.
-  intros Hp. cbn [transform_tree]. pose proof (transform_literal_spec t) as S.
+  intros Hp. cbn [transform_tree]. unfold spec_lit. pose proof (transform_literal_spec t) as S.
   destruct (spec_literal t) as [|k w limbs|].
   - rewrite S. cbn. split; [discriminate|reflexivity].
   - destruct S as (bt & <- & ->). unfold construct. cbn [has_panic flat_tree Z.eqb Pos.eqb].
@@ -43,8 +40,12 @@ Qed.
 
 (* ---------- forests obtained from item lists ---------- *)
 Lemma flat_group d s :
-  0 <= d <= 2 -> flat_tree (Group d s) = TZ (10 + d) :: flat_map flat_tree s ++ [TZ 20].
-Proof. intros H. cbn [flat_tree]. destruct (Z.eqb_spec d 3); [lia|reflexivity]. Qed.
+  flat_tree (Group d s) = open_toks d ++ flat_map flat_tree s ++ close_toks d.
+Proof.
+  cbn [flat_tree]. unfold open_toks, close_toks. destruct (d =? 3).
+  - now rewrite app_nil_r.
+  - reflexivity.
+Qed.
 
 Lemma parse_items_spec path fuel :
   existsb has_panic path = false ->
@@ -54,14 +55,17 @@ Lemma parse_items_spec path fuel :
   exists consumed,
     items = consumed ++ rest /\
     existsb has_panic f = false /\
-    flat_map flat_tree f = flat_map raw_item consumed /\
+    (forall stack tl, walk raw_lit stack (consumed ++ tl) =
+                      flat_map flat_tree f ++ walk raw_lit stack tl) /\
     (forall depth tl acc,
         split_group depth (consumed ++ tl) acc = split_group depth tl (rev consumed ++ acc)) /\
     (existsb has_panic (transform_stream path f) = true ->
      existsb item_rejected consumed = true) /\
     (existsb has_panic (transform_stream path f) = false ->
-     flat_map flat_tree (transform_stream path f) =
-     flat_map (spec_item (flat_map flat_tree path)) consumed).
+     forall stack tl,
+       walk (spec_lit (flat_map flat_tree path)) stack (consumed ++ tl) =
+       flat_map flat_tree (transform_stream path f) ++
+       walk (spec_lit (flat_map flat_tree path)) stack tl).
 Proof.
   intros Hp. induction fuel as [|fuel IH]; intros items f rest HP Hok; [discriminate|].
   cbn [parse_items] in HP. destruct items as [|it items].
@@ -79,21 +83,15 @@ Proof.
     { rewrite Ei, forallb_app in Hok. apply andb_prop in Hok. destruct Hok as [_ Hok].
       cbn [forallb] in Hok. apply andb_prop in Hok. tauto. }
     destruct (IH _ _ _ P2 Hok2) as (cs & Es & Nps & Rs & Ss & Ps & Fs).
-    assert (Hd : 0 <= d <= 2).
-    { apply andb_prop in Hit. destruct Hit as [H1 H2]. apply Z.leb_le in H1, H2. lia. }
     exists (it :: ci ++ c :: cs).
-    assert (Rit : raw_item it = [TZ (10 + d)]) by (unfold raw_item; now rewrite K).
-    assert (Rc : raw_item c = [TZ 20]) by (unfold raw_item; now rewrite Kc).
-    assert (Sit : forall p, spec_item p it = [TZ (10 + d)]) by (intros; unfold spec_item; now rewrite K).
-    assert (Sc : forall p, spec_item p c = [TZ 20]) by (intros; unfold spec_item; now rewrite Kc).
     assert (Jit : item_rejected it = false) by (unfold item_rejected; now rewrite K).
     assert (Jc : item_rejected c = false) by (unfold item_rejected; now rewrite Kc).
     split; [|split; [|split; [|split; [|split]]]].
     + rewrite Ei, Es. cbn [app]. rewrite <- app_assoc. reflexivity.
     + cbn [existsb has_panic]. now rewrite Npi, Nps.
-    + cbn [flat_map]. rewrite flat_group by assumption.
-      rewrite flat_map_app. cbn [flat_map]. rewrite Rit, Rc, Ri, Rs.
-      cbn [app]. rewrite <- app_assoc. reflexivity.
+    + intros stack tl. cbn [app walk]. rewrite K. rewrite <- app_assoc. rewrite Ri.
+      cbn [app walk]. rewrite Kc, Rs. cbn [flat_map]. rewrite flat_group.
+      rewrite <- !app_assoc. reflexivity.
     + intros depth tl acc. cbn [app split_group]. rewrite K.
       rewrite <- app_assoc. rewrite Si. cbn [app split_group]. rewrite Kc.
       rewrite Ss. f_equal. cbn [rev]. rewrite rev_app_distr. cbn [rev].
@@ -105,10 +103,10 @@ Proof.
       * rewrite (Pi H). reflexivity.
       * rewrite (Ps H). apply orb_true_r.
     + unfold transform_stream in *. cbn [map transform_tree existsb has_panic].
-      intros H. apply orb_false_elim in H. destruct H as [H1 H2].
-      cbn [flat_map]. rewrite flat_group by assumption.
-      rewrite (Fi H1), (Fs H2). rewrite flat_map_app. cbn [flat_map].
-      rewrite Sit, Sc. cbn [app]. rewrite <- app_assoc. reflexivity.
+      intros H stack tl. apply orb_false_elim in H. destruct H as [H1 H2].
+      cbn [app walk]. rewrite K. rewrite <- app_assoc. rewrite (Fi H1).
+      cbn [app walk]. rewrite Kc, (Fs H2). cbn [flat_map]. rewrite flat_group.
+      rewrite <- !app_assoc. reflexivity.
   - (* a closing delimiter: stop *)
     inversion HP; subst. exists []. cbn. repeat split; auto; discriminate.
   - (* a literal *)
@@ -120,7 +118,7 @@ Proof.
     split; [|split; [|split; [|split; [|split]]]].
     + now rewrite Es.
     + cbn [existsb has_panic]. exact Nps.
-    + cbn [flat_map flat_tree]. unfold raw_item at 1. rewrite K, Rs. reflexivity.
+    + intros stack tl. cbn [app walk]. rewrite K, Rs. reflexivity.
     + intros depth tl acc. cbn [app split_group]. rewrite K, Ss. cbn [rev].
       rewrite <- app_assoc. reflexivity.
     + unfold transform_stream in *. cbn [map existsb]. intros H.
@@ -128,10 +126,10 @@ Proof.
       apply orb_prop in H. destruct H as [H|H].
       * rewrite (L1 H). reflexivity.
       * rewrite (Ps H). apply orb_true_r.
-    + unfold transform_stream in *. cbn [map existsb]. intros H.
+    + unfold transform_stream in *. cbn [map existsb]. intros H stack tl.
       apply orb_false_elim in H. destruct H as [H1 H2].
-      cbn [flat_map]. rewrite (L2 H1), (Fs H2). unfold spec_item at 2. rewrite K.
-      destruct (spec_literal t); reflexivity.
+      cbn [app walk]. rewrite K, (Fs H2). cbn [flat_map]. rewrite (L2 H1).
+      rewrite <- app_assoc. reflexivity.
   - (* any other token *)
     destruct (parse_items fuel items) as [[sibs r]|] eqn:P1; try discriminate.
     inversion HP; subst f rest; clear HP.
@@ -140,13 +138,13 @@ Proof.
     split; [|split; [|split; [|split; [|split]]]].
     + now rewrite Es.
     + cbn [existsb has_panic]. exact Nps.
-    + cbn [flat_map flat_tree]. unfold raw_item at 1. rewrite K, Rs. reflexivity.
+    + intros stack tl. cbn [app walk]. rewrite K, Rs. reflexivity.
     + intros depth tl acc. cbn [app split_group]. rewrite K, Ss. cbn [rev].
       rewrite <- app_assoc. reflexivity.
     + unfold transform_stream in *. cbn [map transform_tree existsb has_panic orb]. intros H.
       unfold item_rejected at 1. rewrite K. cbn [orb]. exact (Ps H).
-    + unfold transform_stream in *. cbn [map transform_tree existsb has_panic orb]. intros H.
-      cbn [flat_map flat_tree]. rewrite (Fs H). unfold spec_item at 2, raw_item. rewrite K. reflexivity.
+    + unfold transform_stream in *. cbn [map transform_tree existsb has_panic orb]. intros H stack tl.
+      cbn [app walk]. rewrite K, (Fs H). reflexivity.
   - discriminate.
 Qed.
 
@@ -168,7 +166,8 @@ Proof.
   rewrite orb_false_r. unfold spec_tree_with.
   destruct (existsb has_panic (map (transform_tree path) f)) eqn:H.
   - rewrite (P eq_refl). cbn [observe_tree result_eqb andb]. apply orb_true_r.
-  - cbn [observe_tree]. rewrite (F eq_refl), expect_refl. reflexivity.
+  - cbn [observe_tree]. specialize (F eq_refl [] []). rewrite !app_nil_r in F. cbn [walk] in F.
+    rewrite ?app_nil_r in F. rewrite F, expect_refl. reflexivity.
 Qed.
 
 Lemma literal_ok bits entry src :
@@ -203,10 +202,31 @@ Proof.
     unfold uint_wrapper, uint, uint_with_path; apply G; auto.
 Qed.
 
+(* the same literal forwarded as an expression fragment (inside a None-delimited group) *)
+Lemma observe_fwd_node n :
+  observe_fwd (finish [Group 3 [n]]) = observe_literal (finish [n]).
+Proof.
+  unfold finish. cbn [existsb has_panic]. rewrite !orb_false_r.
+  destruct (has_panic n); reflexivity.
+Qed.
+
+Lemma fwd_ok bits entry src :
+  entry_ok entry = true -> spec (fwd bits entry src) (run (fwd bits entry src)) = true.
+Proof.
+  intros He. pose proof (literal_ok bits entry src He) as L. cbn [spec run] in *.
+  assert (E : entry = 0 \/ entry = 1 \/ entry = 2).
+  { unfold entry_ok in He. apply andb_prop in He. destruct He as [H1 H2].
+    apply Z.leb_le in H1, H2. lia. }
+  destruct E as [-> | [-> | ->]]; cbn [Z.eqb Pos.eqb entry_fn app] in *;
+    unfold uint_wrapper, uint, uint_with_path, transform_stream in *;
+    cbn [map] in *; rewrite transform_tree_group; cbn [map]; rewrite observe_fwd_node; exact L.
+Qed.
+
 Theorem C19_all c : wf c -> spec c (run c) = true.
 Proof.
-  unfold wf. destruct c as [bits entry src | bits entry items]; cbn [wfb]; intros W.
+  unfold wf. destruct c as [bits entry src | bits entry src | bits entry items]; cbn [wfb]; intros W.
   - apply andb_prop in W. destruct W as [He _]. exact (literal_ok bits entry src He).
+  - apply andb_prop in W. destruct W as [He _]. exact (fwd_ok bits entry src He).
   - apply andb_prop in W. destruct W as [W Hf]. apply andb_prop in W. destruct W as [He Hok].
     cbn [run]. unfold forest_of in *.
     destruct (parse_items (S (length items)) items) as [[f [|x r]]|] eqn:HP; try discriminate.
@@ -233,14 +253,18 @@ Proof.
         { rewrite Ei, forallb_app in Hok. apply andb_prop in Hok. destruct Hok as [_ Hok].
           cbn [forallb] in Hok. apply andb_prop in Hok. tauto. }
         rewrite Ei, Si. cbn [split_group]. rewrite Kc, app_nil_r, rev_involutive.
-        rewrite <- Ri. unfold uint_with_path.
+        assert (Rp : walk raw_lit [] ci = flat_map flat_tree inner).
+        { specialize (Ri [] []). rewrite ?app_nil_r in Ri. cbn [walk] in Ri.
+          rewrite ?app_nil_r in Ri. exact Ri. }
+        rewrite Rp. unfold uint_with_path.
         destruct (parse_items_spec inner _ Npi _ _ _ P2 Hok2) as (cs & Es & _ & _ & _ & P & F).
         rewrite app_nil_r in Es. subst cs.
         unfold finish, transform_stream in *. cbn [map transform_tree existsb has_panic orb].
         rewrite orb_false_r. unfold spec_tree_with.
         destruct (existsb has_panic (map (transform_tree inner) sibs)) eqn:H.
         -- rewrite (P eq_refl). cbn [observe_tree result_eqb andb]. apply orb_true_r.
-        -- cbn [observe_tree]. rewrite (F eq_refl), expect_refl. reflexivity.
+        -- cbn [observe_tree]. specialize (F eq_refl [] []). rewrite ?app_nil_r in F.
+           cbn [walk] in F. rewrite ?app_nil_r in F. rewrite F, expect_refl. reflexivity.
       * inversion HP.
       * destruct (parse_items n items) as [[sibs r]|]; try discriminate.
         inversion HP; subst. reflexivity.
@@ -342,7 +366,4 @@ Qed.
 (* the token-tree transformer touches nothing but literals: groups keep their delimiter,
    every non-literal leaf is returned as is *)
 Theorem transform_tree_other path t : transform_tree path (Other t) = Other t.
-Proof. reflexivity. Qed.
-Theorem transform_tree_group path d s :
-  transform_tree path (Group d s) = Group d (map (transform_tree path) s).
 Proof. reflexivity. Qed.
